@@ -24,7 +24,7 @@ ID = 'C07'
 LEVEL = 'exploration'
 WORKERS = {'quick': 10, 'thorough': 14}
 BUDGET_S = {'quick': 40, 'thorough': 300}
-REQUIRED_COUNTERS = ['guess_columns_vs_reference_state', 'expected_key_vs_reference', 'expected_key_column_vs_real_state', 'slicing_twins', 'aes_cases', 'des_cases',
+REQUIRED_COUNTERS = ['guess_columns_vs_reference_state', 'expected_key_vs_reference', 'expected_key_column_vs_real_state', 'slicing_twins', 'retained_results_rechecked', 'aes_cases', 'des_cases',
                      'constructed_keys']
 AES_E = ['FirstAddRoundKey', 'FirstSubBytes', 'LastAddRoundKey', 'LastSubBytes', 'DeltaRLastRounds']
 AES_D = ['FirstAddRoundKey', 'FirstSubBytes', 'LastAddRoundKey', 'LastSubBytes', 'DeltaRFirstRounds']
@@ -207,8 +207,20 @@ def run_aes(case):
             got = [int(full[r, exp_rk[w], w]) for w in range(16)]
             t.count('expected_key_column_vs_real_state')
             t.check(got == exp, 'expected_key_column_is_not_the_real_state', lambda: dict(info, trace=r, got=got, expected=exp))
+    _retained(t, rng, ctor, sf, tag, data_in, full, info)
     _slicing(t, rng, ctor, tag, data_in, full, 256, 16, info)
     return t.result(sig=f"aes|{ks}|{ns}|{name}|{n}|{ddt}|{info.get('words')}|{info.get('guesses')}", sample=dict(case=case, derived=info))
+
+
+def _retained(t, rng, ctor, sf, tag, data_in, full, info):
+    """The array returned by one call must not change when a selection function is called again on another batch."""
+    keep = np.array(full, copy=True)
+    other = rng.integers(0, 256, data_in.shape).astype(data_in.dtype)
+    second = np.asarray(sf(**{tag: other}))
+    third = np.asarray(ctor()(**{tag: rng.integers(0, 256, data_in.shape).astype(data_in.dtype)}))
+    t.count('retained_results_rechecked')
+    t.check(bool(np.array_equal(full, keep)), 'earlier_result_overwritten_by_later_call', lambda: dict(info, n_changed=int(np.sum(full != keep))))
+    t.check(not np.shares_memory(full, second) and not np.shares_memory(full, third), 'results_of_two_calls_share_memory', info)
 
 
 def _slicing(t, rng, ctor, tag, data_in, full, ng, nw, info):
@@ -291,6 +303,7 @@ def run_des(case):
                 pt = D.crypt([int(v) for v in data[r]], key, 'decrypt')
                 rec, pre, ct = D.des_trace(pt, rks)
                 t.check(D.stop_value(rec, pre, ct, 15, step) == exp, 'harness_map_inconsistent', info)
+    _retained(t, rng, ctor, sf, tag, data_in, full, info)
     _slicing(t, rng, ctor, tag, data_in, full, 64, 8, info)
     return t.result(sig=f"des|{ns}|{name}|{n}|{ddt}|{info.get('words')}|{info.get('guesses')}", sample=dict(case=case, derived=info))
 
